@@ -41,6 +41,12 @@ func (w *World) armGauges() {
 		metrics.NodeGroupsCPUPercent.WithLabelValues(g).Set(gaugeUnset)
 		metrics.NodeGroupsMemPercent.WithLabelValues(g).Set(gaugeUnset)
 		metrics.NodeGroupScaleDelta.WithLabelValues(g).Set(gaugeUnset)
+		metrics.NodeGroupNodes.WithLabelValues(g).Set(gaugeUnset)
+		metrics.NodeGroupNodesCordoned.WithLabelValues(g).Set(gaugeUnset)
+		metrics.NodeGroupNodesUntainted.WithLabelValues(g).Set(gaugeUnset)
+		metrics.NodeGroupNodesTainted.WithLabelValues(g).Set(gaugeUnset)
+		metrics.NodeGroupNodesForceTainted.WithLabelValues(g).Set(gaugeUnset)
+		metrics.NodeGroupPods.WithLabelValues(g).Set(gaugeUnset)
 	}
 }
 
@@ -54,7 +60,16 @@ func (w *World) readGauges() map[string]Gauges {
 		d := gaugeValue(metrics.NodeGroupScaleDelta.WithLabelValues(g))
 		cp := gaugeValue(metrics.NodeGroupsCPUPercent.WithLabelValues(g))
 		mp := gaugeValue(metrics.NodeGroupsMemPercent.WithLabelValues(g))
-		out := Gauges{Delta: int(d)}
+		cnt := func(v prometheus.Gauge) int {
+			x := gaugeValue(v)
+			if x == gaugeUnset {
+				return -1
+			}
+			return int(x)
+		}
+		out := Gauges{Delta: int(d), NAll: cnt(metrics.NodeGroupNodes.WithLabelValues(g)), NCord: cnt(metrics.NodeGroupNodesCordoned.WithLabelValues(g)),
+			NUnt: cnt(metrics.NodeGroupNodesUntainted.WithLabelValues(g)), NTaint: cnt(metrics.NodeGroupNodesTainted.WithLabelValues(g)),
+			NForce: cnt(metrics.NodeGroupNodesForceTainted.WithLabelValues(g)), NPods: cnt(metrics.NodeGroupPods.WithLabelValues(g))}
 		if cr != gaugeUnset && cc != gaugeUnset {
 			out.Set = true
 			out.CpuReq, out.CpuCap = int(int64(cr)/CpuUnit), int(int64(cc)/CpuUnit)
@@ -229,7 +244,7 @@ func (w *World) Scan(faults []Fault) *Line {
 	} else {
 		line.Gauges = map[string]Gauges{}
 		for _, g := range w.Gorder {
-			line.Gauges[g] = Gauges{}
+			line.Gauges[g] = Gauges{NAll: -1, NCord: -1, NUnt: -1, NTaint: -1, NForce: -1, NPods: -1}
 		}
 	}
 	if RealTime && time.Now().After(w.T0.Add(time.Duration(w.Now)*Tick+Tick/4)) {
